@@ -5,6 +5,10 @@ V = os.path.dirname(os.path.dirname(os.path.abspath(__file__)))
 
 # id: (level, engine, technique, level text, level note, design section)
 CHECKS = {
+ "C10": ("fault_enumeration", "e3a",
+  "exhaustive fault and crash-point enumeration at syscall granularity on the real binary: an LD_PRELOAD interposer numbers every open/write/rename/close on the dump folder; every answer of the environment alphabet at every call (deviation bound 1 complete, bound 2 on the small world), a kill before every call, every input fault at every height, and a byte-granular RLIMIT_FSIZE sweep",
+  "For csvdump, unspentcsvdump and balances on a small world (all output written at completion) and a large one (4 MB buffers overflow mid-run): exit 0 implies all final-named files present, identical to the undisturbed run, no *.tmp; a failed write/open or unreadable block implies non-zero exit, the failing height reported, no final-named file; at every crash point every existing final-named file is complete. The prefix of intercepted calls before the deviation must equal the recorded fault-free sequence (else machinery error).",
+  "Crash = _exit at a syscall boundary (what SIGKILL leaves: page cache intact); power-loss durability is not claimed by the property. rename/close failures are judged only by 'whatever has a final name is complete'.", "6/C10"),
  "C13": ("model_checking", "e3b",
   "stateless DFS over ALL item-level schedules of the two nested parallel regions, executed on the repository's own code with the crate rayon replaced by a controlled-scheduler model (baton scheduler on real threads, recorded choice points, no partial-order reduction); plus BFS over all histories (depth 3) of runs sharing dump folder and data directory on the real binary",
   "Every schedule of worlds 1x4, 2x2, 3x1 (txs x outputs) and a two-block world, on bitcoin and litecoin (15 520 complete in-process runs in quick; 2x3, 4x1 and 3x2 = 277 200 in thorough), through csvdump / simplestats / opreturn (and unspent / balances where affordable): each observation must equal schedule 0's, which must equal the model; measured schedule counts equal the closed-form number of linear extensions. All 258 run sequences x 3 initial dump-folder states x {1,16} threads on the real binary: results equal fresh-folder results, other files untouched, blk/xor files and index content unchanged. A free-running real-rayon pass (1..64 threads, blocks of hundreds of txs) is included as labelled sampling.",
